@@ -269,7 +269,7 @@ CHECKS['C10'] = dict(
         dict(h='h_c10.c', mode='dec', flavour='prod', n={'quick': 1600, 'thorough': 40000}),
         dict(h='h_c10.c', mode='dec', flavour='asan-fixed', n={'quick': 320, 'thorough': 8000}),
         dict(h='h_c10.c', mode='enc', flavour='asan', n={'quick': 640, 'thorough': 16000}),
-        dict(h='h_c10.c', mode='matrix', flavour='prod', n={'quick': 20, 'thorough': 200}),
+        dict(h='h_c10.c', mode='matrix', flavour='prod', n={'quick': 60, 'thorough': 600}),
     ],
     min_nontrivial={'quick': 500, 'thorough': 1000},
     min_counters={'quick': {'ms_channels_equal': 100000, 'layout_family_tables_ok': 1000, 'matrix_exports_equal': 20, 'projection_roundtrips_ok': 20, 'lfe_streams_checked': 300},
